@@ -83,6 +83,9 @@ def pytree_cases(quick):
         # a structured PyTree as the leaf type of a structure-less one (S is looked at while flattening)
         (["pytree", ["int"], "S"], lambda ok: ["tuple", [["lit", 1], ["lit", 2]]] if ok else ["tuple", [["lit", 1], ["lit", "x"]]], 1),
         (["arr", "*#w c"], lambda ok: A((1, 4, 6)) if ok else A((5, 6)), 1),
+        # '*#v' alone: an early leaf WIDENS an existing broadcastable binding (no new name appears), a later leaf fails
+        (["arr", "*#v"], lambda ok: A((3,)) if ok else A((4,)), 1),
+        (["arr", "*#v"], lambda ok: A((2, 3)) if ok else A((3, 3)), 1),
     ]
     structs = [None, "T", "S T", "T ...", "... T", "T U"]
     shapes = {
